@@ -808,3 +808,144 @@ func (c *Ctx) chanCapOf(a *solAnchors) string {
 }
 
 var _ = strings.Join
+
+// ---------------------------------------------------------------------------
+// R-SUBST-LAST (added after seed C15): the term spliced in for a placeholder is only handed on (returned);
+// no syntactic check of the parser looks at it.
+
+func ruleSubstLast(c *Ctx, r *Report) {
+	const rule = "R-SUBST-LAST"
+	n := 0
+	for _, fn := range c.LibFuncs() {
+		if recvNamed(fn) != "Parser" {
+			continue
+		}
+		eachInstr(fn, func(in ssa.Instruction) {
+			ia, ok := in.(*ssa.IndexAddr)
+			if !ok {
+				return
+			}
+			if _, ok := loadsField(ia.X, "Parser", "args"); !ok {
+				return
+			}
+			for _, ref := range *ia.Referrers() {
+				ld, ok := ref.(*ssa.UnOp)
+				if !ok || ld.Op != token.MUL {
+					continue
+				}
+				n++
+				key := fname(fn) + "/substituted-term"
+				desc := "a placeholder's argument is data: once taken from the queue it only travels to the result"
+				bad := ""
+				seen := map[ssa.Value]bool{}
+				var follow func(v ssa.Value)
+				follow = func(v ssa.Value) {
+					if seen[v] || v.Referrers() == nil {
+						return
+					}
+					seen[v] = true
+					for _, u := range *v.Referrers() {
+						switch x := u.(type) {
+						case *ssa.Phi:
+							follow(x)
+						case *ssa.Return, *ssa.DebugRef:
+						case *ssa.Store:
+							// assignment to the local result variable
+							if cell := c.varCell(x.Addr); cell != nil {
+								for _, r2 := range *cell.Referrers() {
+									if l2, ok := r2.(*ssa.UnOp); ok && l2.Op == token.MUL && reachesAfter(x, l2) {
+										follow(l2)
+									}
+								}
+							} else {
+								bad = "stored at " + c.at(x)
+							}
+						case *ssa.TypeAssert:
+							bad = "type-inspected at " + c.at(x)
+						case *ssa.BinOp:
+							bad = "compared at " + c.at(x)
+						case ssa.CallInstruction:
+							bad = "passed to " + calleeName(x.Common()) + " at " + c.at(x)
+						default:
+							bad = fmt.Sprintf("used by %T at %s", u, c.at(u))
+						}
+					}
+				}
+				follow(ld)
+				if bad == "" {
+					r.ok(rule, key, c.at(ld), desc, "the loaded argument flows only to the return value", true)
+				} else {
+					r.bad(rule, key, c.at(ld), desc, "after substitution the value is "+bad+": the Go value is examined as if it were source text (e.g. a string spelling an operator is rejected as an operand)")
+				}
+			}
+		})
+	}
+	r.analysed(rule, fmt.Sprintf("%d substitution loads", n))
+}
+
+// reachesAfter: instruction b can execute after a (same block later, or in a block reachable from a's block).
+func reachesAfter(a, b ssa.Instruction) bool {
+	if a.Block() == b.Block() {
+		return instrIndex(a) < instrIndex(b)
+	}
+	return reachableFromAvoiding(a.Block(), b.Block(), nil)
+}
+
+// ---------------------------------------------------------------------------
+// R-CLOSE-STOPS (added after seed C12): the continuation that hands answers to the consumer ends the
+// search with a plain boolean promise; it never raises an error or delays into the running query.
+
+func ruleCloseStops(c *Ctx, r *Report) {
+	const rule = "R-CLOSE-STOPS"
+	boolCtor := c.fn("Bool")
+	var conts []*ssa.Function
+	for _, fn := range c.LibFuncs() {
+		if funcPkg(fn) != c.Root || fn.Parent() == nil {
+			continue
+		}
+		// a continuation (func(*Env) *Promise) that sends on a channel: the answer hand-off
+		if fn.Signature.Params().Len() != 1 || !c.isEnvPtr(fn.Signature.Params().At(0).Type()) {
+			continue
+		}
+		sends := false
+		eachInstr(fn, func(in ssa.Instruction) {
+			if _, ok := in.(*ssa.Send); ok {
+				sends = true
+			}
+		})
+		if sends {
+			conts = append(conts, fn)
+		}
+	}
+	if len(conts) == 0 || boolCtor == nil {
+		r.undecided(rule, "anchor:answer-continuation", "-", "locate the continuation that hands answers to the consumer", "not found")
+		return
+	}
+	for _, fn := range conts {
+		n := 0
+		eachInstr(fn, func(in ssa.Instruction) {
+			ret, ok := in.(*ssa.Return)
+			if !ok || len(ret.Results) != 1 {
+				return
+			}
+			n++
+			key := fmt.Sprintf("%s/return[%d]", fname(fn), n)
+			desc := "the answer continuation stops or resumes the search with a plain boolean promise"
+			good := true
+			var what string
+			for _, l := range c.originSet(ret.Results[0]) {
+				call, _ := callOfValue(l)
+				if call == nil || call.Call.StaticCallee() != boolCtor {
+					good = false
+					what = valName(l)
+				}
+			}
+			if good {
+				r.ok(rule, key, c.at(ret), desc, "returns Bool(…)", true)
+			} else {
+				r.bad(rule, key, c.at(ret), desc, "returns "+what+": an error raised here travels through every catch/3 of the running query, so Close can start Recovery goals and leave the goroutine blocked")
+			}
+		})
+	}
+	r.analysed(rule, fname(conts[0]))
+}
